@@ -206,6 +206,7 @@ def vcs_tag_runs(rep, impl, r, tier, effort):
     r.shuffle(scen)
     for fetch, fail, cfgv, tags, extra in scen:
         prj = project.TempProject("MAJOR.MINOR.PATCH", cfgv, files={"a.txt": ["ver = {version}"]}, commit=True, tag=True, push=False, vcs="fakegit",
+                                  git_file=(len(scen) + len(extra) + len(fail) + len(tags)) % 2 == 0,   # half of them laid out like a linked worktree (.git is a file)
                                   vcs_cfg=dict(tags=list(tags), status="", remote="origin", fail=list(fail), usable=True))
         with prj:
             before = prj.snapshot()
